@@ -130,6 +130,19 @@ def run_case(c):
     h0 = phash(state)
     form = c.get("cb_form", "list")
     cbs_arg = tuple(cbs) if form == "tuple" else cbs
+    if form == "sequence_api":
+        # the callback container is a mutable sequence: it is assembled with +, item assignment, insert and del; what counts is its final order
+        from qucumber.callbacks import CallbackList
+        placeholder, extra = mk(98, "class"), mk(97, "lambda")
+        cl = CallbackList([placeholder]) + CallbackList(cbs[1:])
+        cl[0] = cbs[0]
+        cl.insert(1, extra)
+        del cl[1]
+        require(list(iter(cl)) == cbs and len(cl) == len(cbs) and cl[0] is cbs[0] and cl[-1] is cbs[-1], "callback-list:sequence-api",
+                "a CallbackList assembled with +, item assignment, insert and del does not hold the expected callbacks in order")
+        expect_raises(TypeError, lambda: cl.insert(0, object()), "callback-list:accepts-non-callback", "CallbackList.insert of an object that is not a callback")
+        expect_raises(TypeError, lambda: cl.__setitem__(0, "x"), "callback-list:accepts-non-callback", "CallbackList item assignment of an object that is not a callback")
+        cbs_arg = cl if c.get("seed", 0) % 2 else [cl]
     if form == "nested_shared":
         # CallbackList is itself a callback and a mutable sequence: one shared list object is used for a first fit(), a member is
         # removed, and the same object is used again - the removed callback must not see any event of the second run
@@ -147,7 +160,7 @@ def run_case(c):
         state.stop_training = bool(c.get("preset"))
         cbs_arg = [shared]
         h0 = phash(state)
-    if c.get("lib_cbs") and form != "nested_shared":
+    if c.get("lib_cbs") and form not in ("nested_shared", "sequence_api"):
         from qucumber.callbacks import EarlyStopping, MetricEvaluator
         ev_ = MetricEvaluator(1, {"m": lambda s_, **kw_: (order.append("M"), 1.0)[1]})
         lib = [ev_, EarlyStopping(1, 0.0, 1, ev_, "m")]
@@ -162,7 +175,7 @@ def run_case(c):
     if t != "positive":
         kw["input_bases"] = bases
     state.fit(data, **kw)
-    if c.get("lib_cbs") and form != "nested_shared":
+    if c.get("lib_cbs") and form not in ("nested_shared", "sequence_api"):
         # callbacks are reached in the order of the caller's list, whatever their kind: the library's evaluator sits where it was listed
         pattern = list(range(pos)) + ["M"] + list(range(pos, len(cbs)))
         nfull = len(order) // len(pattern)
@@ -240,7 +253,7 @@ def sampled(draw, tier):
     c = {"type": draw(st.sampled_from(gen.TYPES)), "N": draw(st.integers(1, 6)), "B": draw(st.integers(1, 4)), "se": draw(st.integers(0, 3)),
          "E": draw(st.integers(0, 4)) if draw(st.integers(0, 9)) else draw(st.integers(9, 13)), "cbs": [draw(st.sampled_from(["class", "lambda"])) for _ in range(ncb)], "time": draw(st.booleans()),
          "seed": draw(st.integers(0, 2 ** 31 - 1)), "hooks_return": draw(st.booleans()), "nbs": draw(st.one_of(st.none(), st.integers(1, 6))),
-         "cb_form": draw(st.sampled_from(["list", "list", "tuple", "nested_shared"])), "fits": draw(st.sampled_from([1, 1, 1, 2, 3])),
+         "cb_form": draw(st.sampled_from(["list", "list", "tuple", "nested_shared", "sequence_api"])), "fits": draw(st.sampled_from([1, 1, 1, 2, 3])),
          # other features used in the same run: a learning-rate scheduler; the library's own evaluator + convergence monitor (tolerance 0:
          # never converges, never requests a stop) somewhere in the callback list
          "sched": draw(st.booleans()), "lib_cbs": draw(st.sampled_from([None, None, "first", "last", "middle"])), "all_z": draw(st.integers(0, 3)) == 0}
